@@ -439,6 +439,9 @@ func runSession(t *testing.T, cfg *sessCfg, job *sessJob, rng *mrand.Rand, sched
 		if mm.Kind == "req" {
 			if _, ok := S[from].tids[raw]; !ok {
 				n := len(S[from].tids) + 1
+				if from == "B" {
+					n += 1000 // disjoint ordinal ranges per issuing agent (Tid0 in IceSession.tla)
+				}
 				S[from].tids[raw] = n
 				S[from].raw[n] = m.TransactionID
 			}
@@ -520,7 +523,8 @@ func runSession(t *testing.T, cfg *sessCfg, job *sessJob, rng *mrand.Rand, sched
 			}
 			prs := []map[string]any{}
 			for _, p := range s.Pairs {
-				prs = append(prs, map[string]any{"id": p.ID, "l": sym(p.L), "r": sym(p.R), "st": p.St, "nom": p.Nom, "nos": p.Nos, "reqs": p.Reqs})
+				prs = append(prs, map[string]any{"id": p.ID, "l": sym(p.L), "r": sym(p.R), "st": p.St, "nom": p.Nom, "nos": p.Nos, "reqs": p.Reqs,
+					"pr": []uint64{p.Prio >> 40, (p.Prio >> 20) & 0xfffff, p.Prio & 0xfffff}})
 			}
 			pend := []map[string]any{}
 			for _, x := range s.Pend {
@@ -858,12 +862,10 @@ func runSession(t *testing.T, cfg *sessCfg, job *sessJob, rng *mrand.Rand, sched
 		// fair, loss-free suffix, made of ordinary logged actions: re-signal what is missing (a restart of one
 		// side is followed by the other side's restart, as a WebRTC stack does), then round-robin
 		// tick A, tick B, deliver everything
-		if S["A"].gen != S["B"].gen {
-			n := "A"
-			if S["A"].gen > S["B"].gen {
-				n = "B"
-			}
-			do(act{ev: "Restart", ag: n})
+		if rst > 0 || S["A"].gen != S["B"].gen {
+			// an ICE restart is an offer/answer exchange: it ends with both sides in a fresh generation
+			do(act{ev: "Restart", ag: "A"})
+			do(act{ev: "Restart", ag: "B"})
 		}
 		for _, n := range []string{"A", "B"} {
 			if gathNew[n] {
